@@ -11,12 +11,18 @@ func Args() []string {
 }
 
 func ReadFile(file string) frt.Tuple2[string, bool] {
+	if verifOn && verifActive() {
+		return verifReadFile(file)
+	}
 	cont, err := os.ReadFile(file)
 	ok := err == nil
 	return frt.NewTuple2(string(cont), ok)
 }
 
 func WriteFile(file string, content string) bool {
+	if verifOn && verifActive() {
+		return verifWriteFile(file, content)
+	}
 	err := os.WriteFile(file, []byte(content), 0644)
 	ok := err == nil
 	return ok
